@@ -134,6 +134,20 @@ def run(ctx: core.Ctx):
                 ctx.violation(f"Rule.load/loaded-after-failure/{c['cls'] or c['kind']}", case, False, True, note=f"'{text}': load failed but is_loaded() is true")
             if k3 == "internal" and kind != "internal":
                 ctx.violation(f"Rule.load/internal-{type(v3).__name__}", case, "clean rejection", f"{type(v3).__name__}: {v3}")
+            # the same on a rule that was loaded successfully before its text was edited: the failed re-load must not leave the
+            # earlier parse behind
+            r2 = fl.Rule.create("if a is lo then y is lo", e)
+            kp, _ = outcome(lambda: r2.parse(text))
+            if kp != "ok":
+                continue_reload = False      # the text itself was refused: the rule keeps its previous, valid text and stays as it was
+            else:
+                continue_reload = True
+            k5, v5 = outcome(lambda: r2.load(e)) if continue_reload else (k3, None)
+            if continue_reload and k5 != "ok" and r2.is_loaded():
+                ctx.violation(f"Rule.load/loaded-after-failed-reload/{c['cls'] or c['kind']}", case, False, True,
+                              note=f"a loaded rule whose text became '{text}' failed to re-load but is_loaded() is still true")
+            if continue_reload and k5 != k3:
+                ctx.violation("Rule.load/reload-verdict-differs", case, k3, k5, note=f"'{text}': a fresh rule gives {k3}, a previously loaded one {k5}")
         # block- and document-level APIs on a sample
         if i % 17 == 0 or c["kind"] in ("mut", "valid"):
             rb = fl.RuleBlock(rules=[fl.Rule.create("if a is lo then y is lo"), fl.Rule()])
